@@ -50,10 +50,14 @@ class SimpCases(BoundedContract):
                 PropagateExpressions.propagate, DelDummyPhi.del_dummy_phi]
 
     def cases(self):
-        return list(range(1200 if self.tier == "quick" else 4000))
+        # ids >= 100000: the family with push / pop / post-increment blocks (a register assigned in the block that uses its old
+        # value as an address)
+        if self.tier == "quick":
+            return list(range(1200)) + list(range(100000, 100400))
+        return list(range(4000)) + list(range(100000, 101500))
 
     def prog(self, case):
-        return irsem.gen_program(random.Random(3600 + case))
+        return irsem.gen_program(random.Random(3600 + case), stack=(case >= 100000))
 
     def show(self, case):
         return "program #%d: %s" % (case, irsem.show_prog(self.prog(case)))
